@@ -633,12 +633,12 @@ def run_graphs(tier, seed):
             uniform = [tuple([k] * n) for k in kinds]
             rest = [t for t in allt if t not in uniform]
             rng.shuffle(rest)
-            types_list += uniform + rest[:(40 if n == 3 else 12)]
+            types_list += uniform + rest[:(40 if n == 3 else 30)]
     slot_sets = {n: slot_sets_for(n) for n in range(1, N + 1)}
     if N == 4:
         s4 = slot_sets[4]
         rng.shuffle(s4)
-        slot_sets[4] = s4[:6000]
+        slot_sets[4] = s4[:20000]
     jobs = [([t], slot_sets) for t in types_list]
     parts = pmap(check_graphs, jobs)
     cases = sum(p['cases'] for p in parts)
@@ -646,7 +646,7 @@ def run_graphs(tier, seed):
     return bitem(PROP, 'asjson-graphs', function='tatsu.util.asjson.asjson',
                  domain='object graphs: n container nodes (list, dict, tuple, namedtuple, AST, Node subclass; all type assignments for n <= 2, '
                         'the 6 uniform + a seeded sample of mixed ones above), two slots per node, each slot a scalar or ANY node (all sharing and cycle shapes)',
-                 bound=f'n <= {N}' + (' (n = 4: 6000 sampled slot assignments per type assignment)' if N == 4 else ''),
+                 bound=f'n <= {N}' + (' (n = 4: 20000 sampled slot assignments per type assignment)' if N == 4 else ''),
                  cases=cases, distinct_nontrivial=sum(p['cyclic'] for p in parts),
                  rule='cases = constructible (types, slots) graphs converted from node 0; distinct_nontrivial = those containing a cycle reachable from the root',
                  exhaustive=(N == 3), samples=[{'python': 'asjson(' + graph_expr(('list', 'dict'), ((1, 0), (0, 'i')), 0) + ')'}], failures=fails)
